@@ -482,8 +482,17 @@ func attackClientTLS(conn net.Conn, suite uint16, d cliTLS, prevCV []byte, recCV
 		if d.ckx == "key2" {
 			target = &T.atkKey.PublicKey
 		}
-		ct, err := rsa.EncryptPKCS1v15(rand.Reader, target, pms)
-		must(err, "RSA encryption")
+		var ct []byte
+		for {
+			ct, err = rsa.EncryptPKCS1v15(rand.Reader, target, pms)
+			must(err, "RSA encryption")
+			// A ciphertext made for another modulus may be >= the server's modulus; the server then answers
+			// handshake_failure instead of going through the implicit rejection.  Keep the case deterministic:
+			// always a value the server's key can process.
+			if new(big.Int).SetBytes(ct).Cmp(pub.N) < 0 {
+				break
+			}
+		}
 		body = prefixed(ct)
 	}
 	ckx := gmtls.VerifMarshalClientKeyExchange(body)
